@@ -571,15 +571,39 @@ impl TransactionBuilder {
                 if let Some(ma) = output_total.multiasset.clone() {
                     for (policy_id, assets) in ma.0.iter() {
                         for (asset_name, _) in assets.0.iter() {
+                            let by = |value: &Value| {
+                                value.multiasset.as_ref()?.get(policy_id)?.get(asset_name)
+                            };
                             self.cip2_random_improve_by(
                                 &available_inputs,
                                 &mut available_indices,
                                 &mut input_total,
                                 &mut output_total,
-                                |value| value.multiasset.as_ref()?.get(policy_id)?.get(asset_name),
+                                &by,
                                 &mut rng,
                                 false,
                             )?;
+                            // quantities that are needed but belong to no explicit output (burned assets)
+                            // are not associated with an output above: add inputs for them as in Phase 3
+                            while by(&input_total).unwrap_or(BigNum::zero())
+                                < by(&output_total).unwrap_or(BigNum::zero())
+                            {
+                                let candidates = available_indices
+                                    .iter()
+                                    .filter(|i| by(&available_inputs[**i].output.amount).is_some())
+                                    .cloned()
+                                    .collect::<Vec<usize>>();
+                                if candidates.is_empty() {
+                                    return Err(JsError::from_str("UTxO Balance Insufficient"));
+                                }
+                                let i = candidates[rng.gen_range(0..candidates.len())];
+                                available_indices.remove(&i);
+                                let input = &available_inputs[i];
+                                let input_fee = self.fee_for_utxo(&input)?;
+                                self.inputs.add_regular_utxo(&input)?;
+                                input_total = input_total.checked_add(&input.output.amount)?;
+                                output_total = output_total.checked_add(&Value::new(&input_fee))?;
+                            }
                         }
                     }
                 }
